@@ -64,8 +64,8 @@ PROPS = {
         "Coq proof (store validity invariant + terminal test) for any lawful VersionSet, registry, well-behaved trace and fuel; correspondence + brute-force solution search as oracle",
         "3 Coq theorems: if the model of resolve returns NoSolution on a provider trace that agrees with the registry, no set of package versions containing the root satisfies all dependencies (for every lawful VersionSet, registry, strategy/trace, fuel); follows from the proved invariant that every stored incompatibility is valid and the terminal test. Tie: full-trace correspondence of the model with the Rust resolve; oracle: complete brute-force search for a solution on every NoSolution result."),
     "C03": solver_prop("Props/Properties_C03.v", "proof",
-        "Coq proof that the tree built from the store has true leaves, derived nodes entailed by their causes for every assignment, and a top node forbidding the root; the shared-id clause is decided by tree correspondence + oracle",
-        "4 Coq theorems: for every lawful VersionSet, registry, well-behaved trace and fuel, the derivation tree of a NoSolution outcome of the model satisfies tree_ok (every external leaf true of the provider: root requirement, dependency declared with exactly that set by every existing version in the stated set, no provider version in a NoVersions set, unavailable dependencies for Custom; every derived node's terms entailed by its two causes for EVERY assignment) and its top node forbids the root at the requested version. The clause on shared ids is NOT proved in Coq: it is decided by the exact comparison of the Rust tree (structure, terms, shared ids) with the model's tree and by the oracle (same id => identical subtrees, an id occurs at least twice). Oracle: independent node-by-node proof checker on every NoSolution tree."),
+        "Coq proof that the tree built from the store has true leaves, derived nodes entailed by their causes for every assignment, a top node forbidding the root, and shared ids exactly on the derived nodes with in-degree >= 2 (all occurrences of one id the same subtree); tree correspondence + independent proof-checking oracle",
+        "7 Coq theorems: for every lawful VersionSet, registry, well-behaved trace and fuel, the derivation tree of a NoSolution outcome of the model satisfies tree_ok (every external leaf true of the provider: root requirement, dependency declared with exactly that set by every existing version in the stated set, no provider version in a NoVersions set, unavailable dependencies for Custom; every derived node's terms entailed by its two causes for EVERY assignment) and its top node forbids the root at the requested version. Shared ids (nosolution_tree_sharing, Proofs/SolverShared.v): the tree is tree_of of the store for a shared list that contains exactly the derived ids with in-degree >= 2 in the cause DAG reachable from the top id (= two different incoming edges; 'reachable along more than one path' is read as this in-degree, the top counting one edge from outside), a derived node built for id j carries Some j exactly when j is in the list, all occurrences of one id are the same subtree, and build_derivation_tree never fails on a run's store (the fuel of the model's DFS suffices). The Rust tree (structure, terms, shared ids) must equal the model's tree on every NoSolution case. Oracle: independent node-by-node proof checker on every NoSolution tree."),
     "C04": solver_prop(None, "other",
         "exploration with a reachability checker on every Ok result, tied to the Coq model by correspondence",
         "NOT yet a Coq theorem (needs I5/I9). Every Ok result is checked: each selected package is reachable from the root through dependencies of selected versions."),
@@ -74,7 +74,7 @@ PROPS = {
         "Termination is not provable with the available effort (section 10). The model has one Panic outcome per panic!/unwrap/expect/unreachable!/debug_assert site and the two Failure returns; the harness (built with debug-assertions and overflow-checks) runs every case under catch_unwind with a 20000-call budget: any panic, Failure or budget exhaustion on a fault-free well-behaved run is a violation; degenerate registries (root without versions, empty sets, unknown packages, cycles, self-dependencies, unavailable versions) are generated on purpose."),
     "C06": solver_prop("Props/Properties_C06.v", "proof",
         "Coq proof by invariant over the solver model: every store entry is justified by its kind and valid (external constructors, merged dependents, rule of resolution), preserved by unit propagation, conflict resolution, backtracking and the main loop",
-        "4 Coq theorems: for every lawful VersionSet, registry, well-behaved trace and fuel, every incompatibility in the model's store (external, merged, learned, intermediate prior causes; runs ending in Ok, NoSolution, errors or cut short) is valid: no solution makes all its terms true. Tie: full-trace correspondence; oracle: validity of every store entry of the replayed run against all solutions of the registry (complete enumeration on small registries).",
+        "7 Coq theorems: for every lawful VersionSet, registry, well-behaved trace and fuel, every incompatibility in the model's store (external, merged, learned, intermediate prior causes; runs ending in Ok, NoSolution, errors or cut short) is valid: no solution makes all its terms true. Tie: full-trace correspondence; oracle: validity of every store entry of the replayed run against all solutions of the registry (complete enumeration on small registries).",
         "The Rust arena is observed through the add-only cfg(pubgrub_verif) hook (a Drop impl that leaves a rendering of every recorded incompatibility in a thread-local); it must equal the model's store entry by entry (kind, cause ids, terms), and the oracle checks every entry of the Rust store against all solutions.",
         extra={"obs_fields": {"solver": ["res", "store"]}}),
     "C07": solver_prop("Props/Properties_C07.v", "other",
@@ -83,14 +83,16 @@ PROPS = {
         extra={"cross_process": True}),
     "C12": solver_prop("Props/Properties_C12.v", "other",
         "protocol checker on every recorded callback trace + Coq model that consumes the trace in protocol order",
-        "Coq (5 theorems, Props/Properties_C12.v): for ANY trace and fuel the calls the model consumes are accepted by the protocol scanner `shape`, from which clauses (1) get_dependencies only right after the choose_version that returned that version, (2) at most once per (p,v), and (5) should_cancel first and between choose_version calls are derived; clauses (3) (set identical to the last prioritize set, non-empty) and (4) (first query = root with the singleton) are NOT proved and are decided by the trace checker. Every recorded trace is checked for the six protocol clauses (get_dependencies only right after the choose_version that returned that version, at most once per (p,v); choose_version with a non-empty set identical to the last prioritize set; first query root with the singleton; should_cancel first and between choose_version calls), and the model only accepts traces in which each call is the one it would make.", domains=("solver", "faults")),
+        "Coq (6 theorems, Props/Properties_C12.v; the 6th - for every lawful VersionSet and every trace with well-formed dependency sets, the set of each accepted choose_version(p, set) call is the set of the LAST prioritize call for p before it - is clause (3) without its 'non-empty' part): for ANY trace and fuel the calls the model consumes are accepted by the protocol scanner `shape`, from which clauses (1) get_dependencies only right after the choose_version that returned that version, (2) at most once per (p,v), and (5) should_cancel first and between choose_version calls are derived; clauses (3) (set identical to the last prioritize set, non-empty) and (4) (first query = root with the singleton) are NOT proved and are decided by the trace checker. Every recorded trace is checked for the six protocol clauses (get_dependencies only right after the choose_version that returned that version, at most once per (p,v); choose_version with a non-empty set identical to the last prioritize set; first query root with the singleton; should_cancel first and between choose_version calls), and the model only accepts traces in which each call is the one it would make.", domains=("solver", "faults")),
     "C13": solver_prop("Props/Properties_C13.v", "other",
         "fault enumeration: every position of the fault-free trace, every callback kind, plus out-of-set answers; compared with the Coq model",
-        "For each base run a fault is injected at every index of its callback trace (error at should_cancel / choose_version / get_dependencies; out-of-set version at choose_version): the faulty trace must equal the fault-free one up to the fault, stop there, and the result must be the matching error variant with the same payload (package and version for get_dependencies) or Failure for an out-of-set version; the model reproduces each faulty run. Coq (2 theorems, Props/Properties_C13.v): the model's result is a function of the consumed trace prefix (no further call matters once the outcome is determined) and every error outcome is explained by an error answer of the matching callback with the same package and version (or an out-of-set answer for Failure).",
+        "Coq (5 theorems): the result is a function of the consumed prefix of the answers; error outcomes are explained by an error answer of the matching callback; an error answer is the LAST call of the run (nothing follows it among the consumed calls) and the outcome is then the matching error carrying the queried package and version. Exploration: for each base run a fault is injected at every index of its callback trace (error at should_cancel / choose_version / get_dependencies; out-of-set version at choose_version): the faulty trace must equal the fault-free one up to the fault, stop there, and the result must be the matching error variant with the same payload (package and version for get_dependencies) or Failure for an out-of-set version; the model reproduces each faulty run. Coq (2 theorems, Props/Properties_C13.v): the model's result is a function of the consumed trace prefix (no further call matters once the outcome is determined) and every error outcome is explained by an error answer of the matching callback with the same package and version (or an out-of-set answer for Failure).",
         domains=("faults",)),
-    "C14": solver_prop("Props/Properties_C14.v", "other",
-        "per-decision check on the Coq model's decision log replayed from the Rust trace: picked package has maximal queue priority, every undecided positive package is queued with a priority reported for its current set",
-        "Coq (3 theorems, Props/Properties_C14.v, from the structural invariant of the changed-index bookkeeping proved in Proofs/SolverQueue.v for ANY trace and fuel): at every decision point of the model every undecided package with a positive term is queued with a priority reported for its CURRENT set, except possibly packages that were themselves picked at an earlier decision point (removing the exception needs the semantic re-queue argument, stage 2); no exception at the first decision. Which maximal element the Rust PriorityQueue pops is not modelled (adversarial parameter taken from the trace; the model rejects a non-maximal pick). Decided by exploration - at every decision of every replayed run: the package the implementation asked about has the maximal last-reported priority (the model rejects the trace otherwise), every package with a positive term and no decision has a queue entry, and its latest prioritize call was for its current set. Static, set-dependent (count), scripted and history-dependent priorities are used. The root cause of F1 violated this and was found here."),
+    "C14": solver_prop("Props/Properties_C14.v", "proof",
+        "Coq proof by two invariants over the solver model (changed-index bookkeeping of partial_solution.rs; every non-deciding continuation re-queues the picked package) + per-decision check on the decision log of every replayed run",
+        "7 Coq theorems (Props/Properties_C14.v, from Proofs/SolverQueue.v + SolverQueue2.v, 174 lemmas), for every lawful VersionSet, any fuel and any trace whose dependency answers carry well-formed sets (every trace agreeing with a well-formed registry): at EVERY decision point every undecided package with a positive term is queued, its entry was reported for its CURRENT set and is the LAST prioritize call for that package (second clause, in full); the package of the choose_version call has a queue entry for exactly the offered set whose priority is the maximum of the queue, and every queued priority is below that maximum (first clause). Which of several maximal packages the Rust PriorityQueue pops is an adversarial parameter taken from the recorded trace: the model REJECTS a trace whose picked package is not maximal (OPickNotMax), so the tie for 'the implementation picks a maximal one' is the replay of every recorded run. Static, set-dependent (count), scripted and history-dependent priorities are generated. The root cause of F1 violated this and was found here.",
+        extra={"assumptions": ["provider is well-behaved w.r.t. the generated registry",
+                               "priority_queue::PriorityQueue::pop (external crate, not part of /repo) returns an element of maximal priority: not modelled, checked on every replayed run (the model rejects a non-maximal pick, which would surface as a correspondence break and a C14 oracle failure)"]}),
     "C08": {
         "props": "Props/Properties_C08.v",
         "level": "proof",
